@@ -192,5 +192,10 @@ def finish(ctx: Ctx, level: str = "model_checking") -> int:
         "violations": len({v.signature for v in unlisted}),
     }
     (VERIF / "evidence").mkdir(exist_ok=True)
+    if ctx.prop.startswith("X"):
+        # extension checks (beyond the listed properties) keep their evidence apart from the properties' files
+        (VERIF / "extensions").mkdir(exist_ok=True)
+        (VERIF / "extensions" / f"{ctx.prop}.json").write_text(json.dumps(ev, indent=1, default=str) + "\n")
+        return rc
     (VERIF / "evidence" / f"{ctx.prop}.json").write_text(json.dumps(ev, indent=1, default=str) + "\n")
     return rc
